@@ -88,6 +88,9 @@ _QUEUE = _flow('20000101T0100Z', 'y(PT1H), z(PT1H)', [('R1', ['a & w => y', 'z']
 _RL1 = _flow('20000101T0100Z', 'x(PT1H)', [('R1', ['x'])])
 _RL3 = _flow('20000101T0100Z', 'x(PT3H)', [('R1', ['x'])])
 
+# offsets of a day and more: 1/a(P1D) expires at 01:00 + 24 h, 1/b(P1DT6H) at + 30 h, 1/d(P1W) a week later
+_DAYS = _flow('20000101T0100Z', 'a(P1D), b(P1DT6H), d(P1W)', [('R1', ['a:expire? => c', 'b', 'd'])])
+
 _CORPUS = [
     # the clock passes the expiry time of 1/a exactly (tick to 02:00): it expires, b is spawned with its
     # prerequisite satisfied, c is not; 2/a is not due yet
@@ -108,6 +111,11 @@ _CORPUS = [
     # expired (incomplete) task across a stop + restart
     _case('c32-restart', _KEEP, {'a': 3600}, 9000,
           [_L, _cmd('stop', mode='REQUEST(NOW)'), _L, _R, _L, _tick(600), _L], kind='expcmd', restarts=1),
+    # offsets of a day or more (held, so that the tasks stay waiting): nothing expires after 2 h or 23 h 59 min 59 s;
+    # 1/a expires exactly 24 h after its cycle point, 1/b 6 h later, 1/d after a week
+    _case('c32-day-offsets', _DAYS, {'a': 86400, 'b': 108000, 'd': 604800}, 3600,
+          [_cmd('hold', tasks=['1/a', '1/b', '1/d']), _tick(7200), _L, _tick(79199), _L, _tick(1), _L, _L, _tick(21600), _L,
+           _tick(400000), _L, _tick(100000), _L, _L]),
     # (judged on the real trace only) 1/a runs and finishes, 1/w takes the only queue slot and keeps it; 1/y (spawned
     # by 1/a, not queued) is triggered: the full queue can only queue it; the clock passes the expiry time of 1/y
     # and 1/z: 1/z expires, the triggered 1/y does not, and runs when 1/w has finished
@@ -215,7 +223,8 @@ class C32(SchedProp):
     ]
     rule = ('generated datetime-cycling workflows (2-6 tasks, 1-3 hourly / two-hourly / one-off recurrences, AND/OR and '
             'inter-cycle triggers, suicide triggers, retries, runahead P0-P3) in which about half of the tasks are '
-            'clock-expire tasks (offsets -PT1H .. PT3H) with triggers off their expired output (`t:expire? => u`, '
+            'clock-expire tasks (offsets -PT1H .. PT3H and P1D, P2D, P1DT6H, PT36H, P1W; the seconds of each offset are computed '
+            'by the generator with its own ISO8601 duration arithmetic from the text written into flow.cylc) with triggers off their expired output (`t:expire? => u`, '
             '`t[-PT1H]:expire? => u`, `t:expire? => !u`), driven through the real Scheduler under a virtual clock by a seeded '
             'adaptive schedule of main loops, clock ticks (random sizes, exactly to / one second short of the next pending '
             'expiry time - also of the expiry times tasks had under a definition replaced by a reload), submit results and '
